@@ -54,9 +54,19 @@ class IsoTpStateMachine:
         except ValueError:
             return  # unknown CAN ID
 
+        if len(data) == 0:
+            # frames without any data cannot be ISO-TP frames
+            self.on_frame_type_error(telegram_idx, -1)
+            return
+
         # decode the isotp segment
         frame_type, _ = bitstruct.unpack("u4u4", data)
         assert isinstance(frame_type, int)
+
+        if frame_type == IsoTp.FRAME_TYPE_FIRST and len(data) < 2:
+            # the frame is too short to contain the telegram length
+            self.on_frame_type_error(telegram_idx, frame_type)
+            return
 
         telegram_len = None
         if frame_type == IsoTp.FRAME_TYPE_SINGLE:
